@@ -45,6 +45,10 @@ def to_dict(o):
     return np.asarray(o)
 
 
+# boundary-biased seeds: 0 (falsy), tiny and arbitrary ones
+SEEDS = st.one_of(st.just(0), st.integers(0, 3), st.integers(0, 2**31 - 1))
+
+
 @st.composite
 def op_lists(draw):
     n = draw(st.integers(8, 45))
@@ -56,7 +60,7 @@ def op_lists(draw):
         elif kind == "reset":
             ops.append(("reset", None, 0))
         else:
-            ops.append(("seed_reset", None, draw(st.integers(0, 2**31 - 1))))
+            ops.append(("seed_reset", None, draw(SEEDS)))
     return ops
 
 
@@ -389,7 +393,7 @@ def run_item(item, seed, tier):
                 if len(ctx.samples) < 2:
                     ctx.sample({"env": env, "adapter": adapter, "seed": sd, "aggs": aggs, "ops": played[:10]})
 
-        hyp.drive({"sd": st.integers(0, 2**31 - 1), "ops": op_lists(), "a1": st.sampled_from(AGGS),
+        hyp.drive({"sd": SEEDS, "ops": op_lists(), "a1": st.sampled_from(AGGS),
                    "a2": st.sampled_from(AGGS)}, one, seed, item["n"])
     return ctx.result()
 
